@@ -208,6 +208,9 @@ class OptimizationAbstract(ABC, Generic[T]):
 
         np.random.seed(task.seed)
         evolution: list[Population] = []
+        self._current_cycle = 1
+        self._errors = []
+        self._error_diffs = []
 
         if workers is not None:
             if workers <= 0:
